@@ -78,6 +78,10 @@ impl Machine for ResumeMachine<'_> {
             v.push(Act::Reinst);
         }
         for &s in &self.sizes {
+            // two empty calls in a row add nothing new
+            if s == 0 && hist.last() == Some(&Act::Feed(0)) {
+                continue;
+            }
             if used + s <= self.nmax {
                 v.push(Act::Feed(s));
             }
@@ -254,7 +258,9 @@ pub fn run(ctx: &Ctx) -> Outcome {
                         let ty = b.map(|b| b.ty.as_str()).or(c.map(|c| c.ty.as_str())).unwrap();
                         let want = fam_ref(cfg, fam, *dir, key, &iv, &data[..(nmax + 2) * g], g);
                         rep.outcome(&want.out);
-                        let mut sizes = vec![1, 2, par + 1];
+                        // 0 = an empty call; PAR and 2*PAR = calls that are an exact multiple of the backend width
+                        let mut sizes = vec![0, 1, 2, par, par + 1, 2 * par];
+                        sizes.sort();
                         sizes.dedup();
                         let m = ResumeMachine { cfg, bm: *b, core: *c, ty, name: format!("{}-{}{}", fam, dir.s(), if c.is_some() { "/core" } else { "" }), key, iv: &iv, data: &data[..(nmax + 2) * g], want: &want, gran: g, nmax, sizes, max_cuts: 3 };
                         let st = bfs::bfs(&m, &mut rep, nmax + 4, 100_000, &|| false);
